@@ -132,6 +132,47 @@ def as_text(value) -> str:
         return "ordered"
     return "other"
 ''',
+    # a public class nested inside another class: isinstance assertions on its instances name the type `<alias>.Outer.Inner`
+    "vfc24_nested": '''"""A class nested inside another class, reachable through its constructor and through factory functions."""
+
+
+class LinkedList:
+    class Node:
+        def __init__(self, value: int = 0) -> None:
+            self.value = value
+            self.next = None
+
+        def is_last(self) -> bool:
+            return self.next is None
+
+    def __init__(self) -> None:
+        self.head = None
+        self.size = 0
+
+    def push(self, value: int) -> "LinkedList.Node":
+        node = LinkedList.Node(value)
+        node.next = self.head
+        self.head = node
+        self.size += 1
+        return node
+
+    def first(self) -> "LinkedList.Node":
+        if self.head is None:
+            raise IndexError("empty list")
+        return self.head
+
+
+def make_node(value: int) -> LinkedList.Node:
+    if value < 0:
+        raise ValueError("negative")
+    return LinkedList.Node(value)
+
+
+def value_of(node: LinkedList.Node) -> int:
+    if node.next is not None:
+        return node.next.value
+    return node.value
+''',
 }
 
 
@@ -263,6 +304,12 @@ def _assert_kind(text: str) -> str:
     if "__module__" in text:
         return "type-name"
     if "isinstance(" in text:
+        try:
+            typ = ast.parse(text).body[0].test.args[1]  # type: ignore[attr-defined]
+            if isinstance(typ, ast.Attribute):  # after normalisation 1 a top-level SUT class is a bare name
+                return "isinstance-nested-class"
+        except (SyntaxError, IndexError, AttributeError):
+            pass
         return "isinstance"
     if "len(" in text:
         return "length"
